@@ -49,6 +49,7 @@ package stats
 //@ func (*rate).reset
 //@   property C17
 //@   mode bv
+//@   modifies rps.*
 //@   ensures [total-kept] adds(rps.total) == old(adds(rps.total)) && stores(rps.total) == old(stores(rps.total)) // reset clears the per-second window, never the total
 
 //@ func (*rate).get
@@ -93,6 +94,22 @@ package stats
 //@   attr guarded rb rb.Mutex
 //@   ensures [unchanged] forall(k, string, has(rb.data, k) == old(has(rb.data, k)) && rb.data[k] == old(rb.data[k]))
 //@   ensures [value] !has(rb.data, key) ==> result == 0
+
+// reset / resetAll clear the per-second windows only: the table keeps every entry (same rate
+// objects under the same keys) and no total moves.
+//@ pred tableKept(rb *rateBucket) = rb.data == old(rb.data) && forall(k, string, has(rb.data, k) == old(has(rb.data, k)) && rb.data[k] == old(rb.data[k]))
+//@ pred totalsKept() = forall(p, *rate, adds(p.total) == old(adds(p.total)) && stores(p.total) == old(stores(p.total)))
+//@ func (*rateBucket).reset
+//@   property C17
+//@   mode bv
+//@   attr guarded rb rb.Mutex
+//@   ensures [kept] tableKept(rb) && totalsKept() // C17: per-status-code counts equal the number of events that happened (a window reset forgets no event)
+//@ func (*rateBucket).resetAll
+//@   property C17
+//@   mode bv
+//@   attr guarded rb rb.Mutex
+//@   loop rangemap invariant [kept] tableKept(rb) && totalsKept()
+//@   ensures [kept] tableKept(rb) && totalsKept() // C17: per-status-code counts equal the number of events that happened (a window reset forgets no event)
 
 // Exported wrappers: each event function is exactly one unit of atomic effect on its metric
 // of the global stats object (the Prometheus mirror is outside the verified state).
